@@ -45,3 +45,36 @@ Fixpoint rs_mentions (names : list str) (x : rsel) : bool :=
 Definition known_covariant (s : schema) (d : rdoc) : bool :=
   let names := ek_refined_fields s in
   existsb (existsb (rs_mentions names)) (rd_all_sels d).
+
+(* Second known class: a variable nested inside a list or object literal that is passed where a (custom) scalar
+   is expected reaches graphql_value_to_json, which has no variable values: the field fails with a
+   SuspectedValidationBug error although the document is valid.
+   known_nested_var d (an over-approximation used only to label such errors): some argument value of the document
+   is a list or object literal that contains a variable. *)
+Fixpoint value_has_var (v : value) : bool :=
+  match v with
+  | VVar _ => true
+  | VList l => (fix any (l : list value) : bool := match l with [] => false | x :: r => value_has_var x || any r end) l
+  | VObject fs => (fix any (l : list (str * value)) : bool :=
+                     match l with [] => false | (_, x) :: r => value_has_var x || any r end) fs
+  | _ => false
+  end.
+
+Definition arg_nested_var (v : value) : bool :=
+  match v with
+  | VList l => existsb value_has_var l
+  | VObject fs => existsb (fun kv => value_has_var (snd kv)) fs
+  | _ => false
+  end.
+
+Fixpoint rs_nested_var (x : rsel) : bool :=
+  match x with
+  | RsField _ _ args _ _ l =>
+      existsb (fun a => arg_nested_var (snd a)) args ||
+      (fix any (l : list rsel) : bool := match l with [] => false | y :: r => rs_nested_var y || any r end) l
+  | RsInline _ _ l =>
+      (fix any (l : list rsel) : bool := match l with [] => false | y :: r => rs_nested_var y || any r end) l
+  | RsSpread _ _ => false
+  end.
+
+Definition known_nested_var (d : rdoc) : bool := existsb (existsb rs_nested_var) (rd_all_sels d).
